@@ -198,7 +198,7 @@ theorem two_bytes_ne_zero (e1 e2 : UInt8) (h : e1 ≠ 0 ∨ e2 ≠ 0) : crcByte 
 
 /-! ### a frame that carries its own CRC leaves the register at zero -/
 
-theorem rd16_split (h l : UInt8) : rd16 h l = (h.toUInt16 <<< 8) ||| l.toUInt16 := by
+theorem rd16_shift_or (h l : UInt8) : rd16 h l = (h.toUInt16 <<< 8) ||| l.toUInt16 := by
   apply UInt16.toNat_inj.mp
   have hh := h.toNat_lt
   have hl := l.toNat_lt
@@ -229,7 +229,7 @@ theorem xor_self16 (a : UInt16) : a ^^^ a = 0 := by
 
 /-- feeding the register its own low byte and then its high byte empties it -/
 theorem crcByte_own_bytes (h l : UInt8) : crcByte (crcByte (rd16 h l) l) h = 0 := by
-  rw [crcByte_eq (rd16 h l) l, rd16_split, or_xor_low, sh8_high, crcByte_eq, xor_self16, sh8_zero]
+  rw [crcByte_eq (rd16 h l) l, rd16_shift_or, or_xor_low, sh8_high, crcByte_eq, xor_self16, sh8_zero]
 
 theorem swap_bytes (h l : UInt8) : ((rd16 h l) >>> 8) ||| ((rd16 h l) <<< 8) = rd16 l h := by
   apply UInt16.toNat_inj.mp
